@@ -44,6 +44,47 @@ func fieldLoadName(v ssa.Value) (string, ssa.Value) {
 // map field `table` missed.
 func tableMiss(f *ssa.Function, facts *Facts, b *ssa.BasicBlock, table string, key ssa.Value) bool {
 	found := false
+	// a private presence predicate has(name) bool { _, ok := d.table[name]; return ok } known false
+	for k := range facts.At(b) {
+		call, ok := resolve(k.v).(*ssa.Call)
+		if !ok || k.pol {
+			continue
+		}
+		h := call.Call.StaticCallee()
+		if h == nil || h.Pkg != f.Pkg || h.Blocks == nil || h.Signature.Results().Len() != 1 {
+			continue
+		}
+		ai := -1
+		for i, a := range call.Call.Args {
+			if sameValue(a, key) {
+				ai = i
+			}
+		}
+		if ai < 0 || ai >= len(h.Params) {
+			continue
+		}
+		all, any := true, false
+		for _, r := range returnsOf(h) {
+			ex, isEx := resolve(r.Results[0]).(*ssa.Extract)
+			if !isEx || ex.Index != 1 {
+				all = false
+				continue
+			}
+			lk, isLk := ex.Tuple.(*ssa.Lookup)
+			if !isLk || !lk.CommaOk {
+				all = false
+				continue
+			}
+			if n, _ := fieldLoadName(lk.X); n != table || lk.Index != ssa.Value(h.Params[ai]) {
+				all = false
+				continue
+			}
+			any = true
+		}
+		if all && any {
+			return true
+		}
+	}
 	eachInstr(f, func(_ *ssa.BasicBlock, _ int, in ssa.Instruction) {
 		lk, ok := in.(*ssa.Lookup)
 		if !ok || !lk.CommaOk || found {
@@ -238,9 +279,53 @@ func rulesC10(c *Ctx) {
 		}
 		return
 	}
+	// a pop takes exactly the pushed slot off: stack[:len(stack)-1], or stack[:n] with
+	// n = len(stack) read before the push.  stack[:0] (or any other bound) is not a pop:
+	// it also drops the names of the resolutions still in progress further out.
+	isLenOfStack := func(v ssa.Value) bool {
+		lc, ok := resolve(v).(*ssa.Call)
+		if !ok {
+			return false
+		}
+		if b, ok := lc.Call.Value.(*ssa.Builtin); !ok || b.Name() != "len" {
+			return false
+		}
+		n, _ := fieldLoadName(resolve(lc.Call.Args[0]))
+		return n == ro.stack
+	}
+	var curPush ssa.Instruction
+	oneSlot := func(sl *ssa.Slice) bool {
+		if sl.Low != nil {
+			if k, ok := constInt(sl.Low); !ok || k != 0 {
+				return false
+			}
+		}
+		if sl.High == nil {
+			return false
+		}
+		h := resolve(sl.High)
+		if bo, ok := h.(*ssa.BinOp); ok && bo.Op == token.SUB {
+			if k, ok := constInt(bo.Y); ok && k == 1 && isLenOfStack(bo.X) {
+				return true
+			}
+			return false
+		}
+		if _, isConst := h.(*ssa.Const); isConst {
+			return false
+		}
+		for _, o := range Origins(h, FlowOpts{}) {
+			if !isLenOfStack(o.Val) {
+				return false
+			}
+			if in, ok := resolve(o.Val).(ssa.Instruction); ok && curPush != nil && in.Parent() == curPush.Parent() && !dominates(in, curPush) {
+				return false
+			}
+		}
+		return true
+	}
 	popEvent := func(in ssa.Instruction) bool {
 		if _, pop := isStackStore(in); pop {
-			return true
+			return oneSlot(in.(*ssa.Store).Val.(*ssa.Slice))
 		}
 		if d, ok := in.(*ssa.Defer); ok {
 			if mc, ok := d.Call.Value.(*ssa.MakeClosure); ok {
@@ -267,12 +352,13 @@ func rulesC10(c *Ctx) {
 		eachInstr(pf, func(b *ssa.BasicBlock, i int, in ssa.Instruction) {
 			if push, _ := isStackStore(in); push {
 				pushes++
+				curPush = in
 				bad := MustPass(pf, in, popEvent)
 				con := fmt.Sprintf("push #%d on the resolution stack (resolution path of Get)", pushes)
 				if len(bad) == 0 {
 					c.OK("R1", con, in.Pos(), "popped on every path to every return")
 				} else {
-					c.Bad("R1", con, in.Pos(), fmt.Sprintf("the return at %s is reachable without popping — the name stays on the stack and a later Get of it reports a cycle (or pops a foreign slot)", c.pos(bad[0].Instr.Pos())))
+					c.Bad("R1", con, in.Pos(), fmt.Sprintf("the return at %s is reachable without taking exactly the pushed slot off — the name stays on the stack and a later Get of it reports a cycle, or the names of outer resolutions in progress are dropped and a real cycle recurses", c.pos(bad[0].Instr.Pos())))
 				}
 			}
 		})
@@ -496,7 +582,11 @@ func rulesC10(c *Ctx) {
 	// ---- R5 explicit beats default ------------------------------------------------------------
 	n5 := 0
 	defTables := map[string]bool{ro.defInst: true, ro.defFact: true}
-	for _, f := range []*ssa.Function{block, get} {
+	r5funcs := []*ssa.Function{block, get}
+	if bg := privateGroup(c.P, block, true); len(bg) > 1 {
+		r5funcs = append(r5funcs, bg[1:]...)
+	}
+	for _, f := range r5funcs {
 		ff := factsFor(f)
 		eachInstr(f, func(b *ssa.BasicBlock, _ int, in ssa.Instruction) {
 			mu, ok := in.(*ssa.MapUpdate)
@@ -507,6 +597,16 @@ func rulesC10(c *Ctx) {
 				return
 			}
 			src := dependsOnField(mu.Value, defTables, 0, map[ssa.Value]bool{})
+			if src == "" {
+				// a private fold helper that receives the default value as a parameter
+				if pp, isP := resolve(mu.Value).(*ssa.Parameter); isP && f != block && f != get {
+					for _, a := range liftSites(pp) {
+						if n := dependsOnField(a, defTables, 0, map[ssa.Value]bool{}); n != "" {
+							src = n
+						}
+					}
+				}
+			}
 			if src == "" {
 				return
 			}
@@ -958,6 +1058,27 @@ func dependsOnMarker(facts *Facts, v ssa.Value, depth int, seen map[ssa.Value]bo
 			}
 		}
 		return false
+	}
+	// the flag may be computed by a private helper (depID, isRequired := parseTag(tag))
+	if ex, ok := v.(*ssa.Extract); ok {
+		if call, ok := ex.Tuple.(*ssa.Call); ok {
+			if h := call.Call.StaticCallee(); h != nil && inModule(h) && h.Blocks != nil && depth < 6 {
+				hf := factsFor(h)
+				for _, r := range returnsOf(h) {
+					if ex.Index < len(r.Results) {
+						if dependsOnMarker(hf, r.Results[ex.Index], depth+1, seen) {
+							return true
+						}
+						// a constant result chosen on an edge that tests the marker
+						for k := range hf.At(r.Block()) {
+							if dependsOnMarker(hf, k.v, depth+1, seen) {
+								return true
+							}
+						}
+					}
+				}
+			}
+		}
 	}
 	in, ok := v.(ssa.Instruction)
 	if !ok {
